@@ -63,11 +63,46 @@ def run(tier):
         for rep in range((12 if thorough else 4) if fn != "FactoryDetect" else (4 if thorough else 1)):
             jid += 1
             ip = edge_plans(s, items, rng, coupled=True)
+            if rep % 2 == 0:
+                ip = [dict(x, qmode="edgebelow") for x in ip]     # Q values a hair below the class edges
             jobs.append(wf.mkjob(jid, fn, ip, plan_seed=rng.randrange(1 << 30), rseed=jid, tag="coupled"))
             meta[jid] = {"cnt": [ip[i]["pass"] for i in range(items)], "hist": [ip[i]["hist"] for i in range(items)],
                          "vec": {"verdict": True, "kind": "coupled", "plan": [{"item": i + 1, "pass": ip[i]["pass"], "hist": ip[i]["hist"]} for i in range(items) if ip[i]["pass"] < s]},
                          "facts": {"kind": "coupled", "plan": json.dumps([x for x in ip[:items] if x.get("failbin")], sort_keys=True)}}
     rows, rej = wf.run_and_validate(run, hz, jobs, meta)
+    # overlapping calls with the real runners: six periodic detections (healthy and biased sources side by side) released
+    # together, three rounds; each must judge exactly its own stream (matrix computed from the stream afterwards, verdict by TLC)
+    oj = []
+    for g in range(8 if thorough else 6):
+        jid += 1
+        if g % 2 == 0:
+            st = {"kind": "seeded", "seed": rng.randrange(1 << 40), "len": -1}
+        else:
+            st = {"kind": "periodic", "period": [rng.choice([0x00, 0x01, 0x80, 0xFF, rng.randrange(256)]) for _ in range(rng.choice([5, 17, 251]))], "len": -1}
+        j = wf.mkjob(jid, "PeriodDetect", mode="real", stream=st, policy=rng.choice(["full", "halves", "fixed"]), size=1250, rseed=jid, tag="overlapping calls")
+        j["conc"] = 1
+        oj.append(j)
+    orow, ocr = vlib.run_hz_jobs(hz, "workflow", oj, nproc=1, timeout=1800)
+    if ocr:
+        run.violation({"kind": "crash-overlapping"}, {"job": ocr[0]["first_missing"], "stderr": ocr[0]["stderr"][-1500:]})
+    ogroups = []
+    for j in oj:
+        r = orow.get(j["id"])
+        if not r:
+            continue
+        items = 12
+        cnt = [sum(1 for x in r["pass"][k] if x) for k in range(items)] if "pass" in r else [0] * items
+        ogroups.append(wf.trace_events(j, r, cnt, []))
+    if ogroups:
+        oacc, orej, ogen = vlib.validate_trace("TraceWorkflow", None, groups=ogroups, resync=lambda e: e["ev"] == "begin", max_rej=6, timeout=900)
+        run.states += oacc; run.transitions += ogen; run.traces += len(ogroups) - len({e["id"] for e in orej}); run.evaluations += len(ogroups)
+        obyid = {j["id"]: j for j in oj}
+        for i_ in {e["id"] for e in orej}:
+            r = orow[i_]
+            run.violation({"kind": "overlapping-calls", "fn": "PeriodDetect"},
+                          {"job": obyid[i_], "result": {k: v for k, v in r.items() if k not in ("events", "qs", "pass", "dump")},
+                           "note": "six PeriodDetect calls ran at the same time, each on its own source; this one did not judge its own stream"})
+        run.extra["overlapping_real_calls"] = len(ogroups)
     # orchestrator-side cross-check against the verdict GenVerdict printed (same Decision operators, evaluated at generation time)
     nt = 0
     for j in jobs:
